@@ -595,3 +595,53 @@ func ruleGroupAlwaysCalls(rule string) RuleFn {
 		}
 	}
 }
+
+// ruleTypedStore (G-typed-store): the decorated-group store is type-indexed.
+func ruleTypedStore(rule string) RuleFn {
+	return func(c *an.Ctx) {
+		c.Rule(rule, "G-typed-store: a decorated value group is stored whole under the key (Group, rt.Type) and handed to consumers whose field type IS that key type, so rt.Type must be the static type of the stored value. That holds for every grouped result except a flatten one, whose Type was replaced by its element type when the node was built: the decorated store in resultGrouped.Extract is therefore reached only with !Flatten, or findResultKeys (the validation every decorator passes through) rejects flatten results. Otherwise Decorate accepts `V [][]T `group:\"g,flatten\"``, stores a [][]T under the key of []T, and the next consumer's reflect.Value.Set panics inside Invoke")
+		ok := false
+		where := ""
+		if fn := c.Fn(rule, "(dig.resultGrouped).Extract"); fn != nil {
+			notFlat := an.BoolEdges(fn, func(v ssa.Value) bool { return an.Norm(v) == "p:rt.Flatten" }, false)
+			calls := invokeNamed(fn, "submitDecoratedGroupedValue")
+			all := len(calls) > 0 && len(notFlat) > 0
+			for _, k := range calls {
+				if hit, _ := an.PathTo(fn, nil, an.IsInstr(k), an.NewGates().AddEdges(notFlat...)); hit != nil {
+					all = false
+				}
+			}
+			if all {
+				ok, where = true, "resultGrouped.Extract writes the decorated store only for non-flatten results"
+			}
+		}
+		if fn := c.Fn(rule, "dig.findResultKeys"); fn != nil && !ok {
+			flat := an.BoolEdges(fn, func(v ssa.Value) bool { return strings.HasSuffix(an.Norm(v), ".(dig.resultGrouped)#0.Flatten") }, true)
+			rejects := len(flat) > 0
+			for _, e := range flat {
+				first := e.From.Succs[e.Succ].Instrs[0]
+				if successReturn(first) {
+					rejects = false
+				}
+				if hit, _ := an.PathTo(fn, first, successReturn, nil); hit != nil {
+					rejects = false
+				}
+				// ... and no further key may be collected after it either
+				if hit, _ := an.PathTo(fn, first, func(i ssa.Instruction) bool {
+					k, isCall := i.(*ssa.Call)
+					if !isCall {
+						return false
+					}
+					bi, isB := k.Common().Value.(*ssa.Builtin)
+					return isB && bi.Name() == "append"
+				}, nil); hit != nil {
+					rejects = false
+				}
+			}
+			if rejects {
+				ok, where = true, "findResultKeys rejects flatten results of decorators"
+			}
+		}
+		c.Check(ok, rule, "a decorated group is stored under the type of the stored value", where, "a decorator's flatten group result is accepted and its whole value stored under the element type's group key: Decorate(func(..) struct{dig.Out; V [][]int `group:\"x,flatten\"`}) succeeds and the next Invoke consuming []int `group:\"x\"` panics in reflect.Value.Set", nil, nil)
+	}
+}
